@@ -540,20 +540,13 @@ Proof.
 Qed.
 
 (* the executable form of the per-cycle specification *)
+Lemma impb_iff : forall a b, impb a b = true <-> (a = true -> b = true).
+Proof. destruct a, b; cbn; intuition congruence. Qed.
+
 Lemma cyc_okb_iff : forall EP s i o, cyc_okb EP s i o = true <-> cyc_ok EP s i o.
 Proof.
-  intros EP s i o. unfold cyc_okb, cyc_ok, impb.
-  generalize (sp_dr EP s i) (sp_sr EP s i) (sp_ping EP s i). intros a b c.
-  destruct (o_dr o), (o_sr o), (o_ds o), (o_ss o), a, b; cbn; try (split; [discriminate | intuition congruence]);
-  destruct (o_txv o), (i_dv i), (i_sv i); cbn; try (split; [discriminate | intuition congruence]);
-  destruct (o_stall o), (i_dstall i); cbn; try (split; [discriminate | intuition congruence]);
-  destruct (o_ack o), (i_sack i), c; cbn; try (split; [discriminate | intuition congruence]);
-  destruct (o_nak o); cbn; try (split; [discriminate | intuition congruence]);
-  destruct (o_ac o), (o_cc o), (i_ack i); cbn; try (split; [discriminate | intuition congruence]);
-  try (split; [intros _; intuition congruence | reflexivity]);
-  destruct (o_halt o =? 0) eqn:E; cbn;
-    try (apply N.eqb_eq in E; split; [intros _; intuition congruence | reflexivity]);
-    apply N.eqb_neq in E; split; try discriminate; try (intros _; intuition congruence); intuition congruence.
+  intros EP s i o. unfold cyc_okb, cyc_ok.
+  rewrite !andb_true_iff, !impb_iff, !eqb_true_iff, !orb_true_iff, !negb_true_iff, N.eqb_neq. tauto.
 Qed.
 
 Lemma skip_none_ext : forall f i, same_fieldsb f i = true -> skip_none i = skip_none f.
@@ -563,4 +556,17 @@ Proof.
   intros r f i H. unfold skip_req. unfold same_fieldsb in H.
   repeat (apply andb_true_iff in H as [H ?]).
   match goal with K : (i_req f =? i_req i) = true |- _ => apply N.eqb_eq in K; rewrite K end. reflexivity.
+Qed.
+
+(* the runtime oracle's state codec is faithful *)
+Lemma mon_dec_enc : forall m, e_ep (m_e m) < 16 -> mon_dec (mon_enc m) = m.
+Proof.
+  intros [[ls ep] [cur adv] fr] H. cbn [m_e e_ep] in H. unfold mon_dec, mon_enc. cbn [m_e m_s m_fr e_ls e_ep s_cur s_adv].
+  repeat (rewrite pk_div by first [apply b2n_lt | assumption]).
+  repeat (rewrite pk_mod by first [apply b2n_lt | assumption]).
+  rewrite !nb_b2n. destruct cur as [f|].
+  - replace (1 + 2 * f =? 0) with false by (symmetry; apply N.eqb_neq; lia).
+    replace ((1 + 2 * f - 1) / 2) with f; [reflexivity|].
+    replace (1 + 2 * f - 1) with (f * 2) by lia. rewrite N.div_mul by lia. reflexivity.
+  - reflexivity.
 Qed.
